@@ -138,6 +138,26 @@ func solve(query string, timeoutS int) SolveResult {
 			res = SolveResult{Status: "unknown", Solver: a.name, Secs: a.secs, Output: a.out}
 		}
 		cancel()
+		if res.Status == "unknown" && systemBusy() {
+			// wall-clock limits are unfair when the machine is oversubscribed: one more race with a longer limit
+			ctx2, cancel2 := context.WithCancel(context.Background())
+			ch2 := make(chan ans, len(solvers))
+			for _, sp := range solvers {
+				go func(sp solverSpec) {
+					s, o, t := runOne(ctx2, sp, tmp.Name(), timeoutS*4)
+					ch2 <- ans{s, o, sp.name, t}
+				}(sp)
+			}
+			for i := 0; i < len(solvers); i++ {
+				a := <-ch2
+				addSolverTime(a.name, a.secs)
+				if a.st == "sat" || a.st == "unsat" {
+					res = SolveResult{Status: a.st, Solver: a.name + " (retry under load)", Secs: a.secs, Output: a.out}
+					break
+				}
+			}
+			cancel2()
+		}
 	}
 	if res.Status == "sat" {
 		res.Model = parseModel(res.Output)
@@ -149,6 +169,32 @@ func solve(query string, timeoutS int) SolveResult {
 		cacheMu.Unlock()
 	}
 	return res
+}
+
+// solveGround tries a weakened query (quantified hypotheses dropped) with one fast solver: `unsat` there is a proof of
+// the full obligation, anything else says nothing. Quantified hypotheses that a goal does not need are what most often
+// makes solvers time out, so this is tried first.
+func solveGround(query string) (bool, float64) {
+	sum := sha256.Sum256([]byte("ground:" + query))
+	key := hex.EncodeToString(sum[:])
+	cpath := filepath.Join(cacheDir, key[:2], key)
+	if data, err := os.ReadFile(cpath); err == nil {
+		return string(data) == "unsat", 0
+	}
+	tmp, err := os.CreateTemp("", "akvg*.smt2")
+	if err != nil {
+		return false, 0
+	}
+	defer os.Remove(tmp.Name())
+	tmp.WriteString(query)
+	tmp.Close()
+	st, _, secs := runOne(context.Background(), solvers[0], tmp.Name(), 1)
+	addSolverTime(solvers[0].name, secs)
+	cacheMu.Lock()
+	os.MkdirAll(filepath.Dir(cpath), 0o755)
+	os.WriteFile(cpath, []byte(st), 0o644)
+	cacheMu.Unlock()
+	return st == "unsat", secs
 }
 
 func addSolverTime(name string, s float64) {
